@@ -525,14 +525,16 @@ def run(ctx):
         name, sub, workers, cov = job
         cfg = tracecheck._cfg("PipesAlgebra.cfg", sub, ctx.scratch, "pa_%s.cfg" % name)
         return name, tlc.run("MC_PipesAlgebra", cfg, ctx.scratch, workers=workers, timeout=1500, heap="6g", coverage=cov)
-    jobs = [("join-" + c["name"], c["sub"], 4, c["name"] in ("variety", "any-order")) for c in JC]
-    jobs += [("part-" + p, part_sub(p), 3 if p != "table" else 1, True) for p in ("queue", "disk", "list", "table")]
+    jobs = [("join-" + c["name"], c["sub"], 2, c["name"] in ("variety", "any-order")) for c in JC]
+    jobs += [("part-" + p, part_sub(p), 2 if p != "table" else 1, True) for p in ("queue", "disk", "list", "table")]
     for g, _, _ in JOIN_GUARDS:
         jobs.append(("guard-join-" + g, {'Variant = "ok"': 'Variant = "%s"' % g, "Atoms <- AtomsTyping": "Atoms <- AtomsPair", "MaxArgs = 5": "MaxArgs = 4"}, 1, False))
     for p, g, _, _ in PART_GUARDS:
         jobs.append(("guard-%s-%s" % (p, g), {'Part = "join"': 'Part = "%s"' % p, 'Variant = "ok"': 'Variant = "%s"' % g, "QN = 4": "QN = %d" % (4 if p == "queue" else 3)}, 1, False))
-    with ThreadPoolExecutor(max_workers=3) as ex:
+    import time as _t; t0 = _t.time()
+    with ThreadPoolExecutor(max_workers=5) as ex:
         results = dict(ex.map(tlc_job, jobs))
+    ctx.extra["tlc_phase_s"] = round(_t.time() - t0, 1)
 
     for name, what, expect in [("join-" + g, w, e) for g, w, e in JOIN_GUARDS] + [("%s-%s" % (p, g), w, e) for p, g, w, e in PART_GUARDS]:
         r = results["guard-" + name]
